@@ -773,6 +773,12 @@ func report(plan *Plan, agg *Agg, findings []Finding, wall time.Duration, replay
 	inconclusive := len(agg.Inconcl) > 0
 	var reasons []string
 	reasons = append(reasons, agg.Inconcl...)
+	if n := agg.Stats["watchdog_timeouts"]; n > 0 {
+		// a probe process that did not come back within its (generous) wall-clock watchdog: a call that never returns
+		// cannot be convicted without a clock, and it certainly was not observed to behave - neither verdict
+		inconclusive = true
+		reasons = append(reasons, fmt.Sprintf("%d probe process(es) did not finish within their watchdog (a call that never returns, or an overloaded machine)", n))
+	}
 	if replay == nil {
 		if agg.Evals == 0 {
 			inconclusive = true
